@@ -36,6 +36,7 @@ Definition p_ekind (k : ekind) : list N :=
   | ERunExpired => [7]
   | EDialEnded => [8]
   | EFailure c => [9; p_fail_code c]
+  | EDialWait => [10]
   end.
 
 Definition p_event (e : event) : list N := p_stepref (ev_step e) ++ p_ekind (ev_kind e).
